@@ -145,7 +145,7 @@ func (v *Vue) evalBoundAttribute(ctx VueContext, attrName, expr string) (any, er
 	}
 
 	// Check if it's a function call or pipe expression
-	if strings.Contains(expr, "|") || helpers.IsFunctionCall(expr) || helpers.IsComplexExpr(expr) {
+	if strings.Contains(expr, "|") || helpers.IsFunctionCall(expr) || helpers.IsComplexExpr(expr) || !helpers.IsVariablePath(expr) {
 		pipe := parsePipeExpr(expr)
 		val, err := v.evalPipe(ctx, pipe)
 		if err != nil {
